@@ -96,6 +96,8 @@ impl Problem {
             "cube" => d[0] = -y[0] * y[0] * y[0],
             // stiff relaxation towards cos t with rate p
             "relax" => d[0] = -p * (y[0] - t.cos()),
+            // nonlinear relaxation towards cos t: -p (e^3 + e) - sin t with e = y - cos t (exact solution cos t from y(0) = 1)
+            "cubrelax" => { let e = y[0] - t.cos(); d[0] = -p * (e * e * e + e) - t.sin(); }
             // relaxation with rate p towards a large negative constant (states of magnitude 4e9)
             "relaxc" => d[0] = -p * (y[0] - (-4.0e9)),
             // -y until t = p, then the very stiff -1e4 y^3
@@ -186,6 +188,7 @@ impl Problem {
             "tan" => j[0] = 2.0 * y[0],
             "cube" => j[0] = -3.0 * y[0] * y[0],
             "relax" | "relaxc" => j[0] = -p,
+            "cubrelax" => { let e = y[0] - _t.cos(); j[0] = -p * (3.0 * e * e + 1.0); }
             "switch3" => j[0] = if _t < p { -1.0 } else { -3.0e4 * y[0] * y[0] },
             "kjump3" => j[0] = -3.0 * (if _t < p { 1.0 } else { 1.0e4 }) * y[0] * y[0],
             "sqrtneg" => j[0] = -0.5 / y[0].sqrt(),
